@@ -411,15 +411,27 @@ class NodeCountStream(Stream):
             acc["count_differs_from_typed_eq_classes"] = acc.get("count_differs_from_typed_eq_classes", 0) + 1
 
 
+def extract(ctx=None):
+    """lean/PV/Generated/Analysis.lean (and Traversal.lean, whose combine / walk tables and node
+    classes it builds on) from the live source of dependency.py, flop_counter.py, analysis.py and
+    mapper/__init__.py (extract/analysis.py, extract/traversal.py)"""
+    from extract.analysis import extract_analysis
+    return extract_analysis(ctx)
+
+
 PROP = Prop(
     id="C09",
     title="Dependency, node-count and flop analyses are exact",
     lean_targets=["PV.Properties.C09"],
     theorems=[],
+    extractors=[extract],
     streams=[DepStream(), CountStream(), NodeCountStream()],
     trusted_base=["Lean 4.33 kernel; axioms propext, Classical.choice, Quot.sound only",
-                  "harness serialisation; Python set semantics modelled as duplicate-free lists under =="],
-    level_text='Lean theorems (unbounded, all flag settings): the dependency analysis returns exactly the occurrences selected by the flags (soundness: every result is an outermost selected subterm; completeness up to Python == on well-formed trees), with all composite flags off it returns exactly the free variables, and evaluation depends only on those (coincidence lemma); the flop counter equals an independent operation count and the CSE-aware counter counts a seen wrapper as 0; the node counter (an exact model of the cached walk: lookup before dispatch, store after the handler) returns exactly the number of distinct subexpressions whenever no two subterms are confusable under the cache key (type, ==), and on every well-formed tree a number between the count of ==-classes and the count of structurally distinct subterms (both bounds witnessed not to be the count in general). Tied to DependencyMapper (plain/cached, composite_leaves), get_num_nodes, FlopCounter, CSEAwareFlopCounter by correspondence.',
+                  "harness serialisation; Python set semantics modelled as duplicate-free lists under ==",
+                  "extract/analysis.py + extract/traversal.py (ast readers of the map_* handlers, "
+                  "__init__, combine, CachedMapper.__call__, the NodeCountMapper hooks; unknown shapes "
+                  "are errors) and the meaning PV/Model/AnalysisTable.lean gives the handler language"],
+    level_text='Lean theorems (unbounded, all flag settings): the dependency analysis returns exactly the occurrences selected by the flags (soundness: every result is an outermost selected subterm; completeness up to Python == on well-formed trees), with all composite flags off it returns exactly the free variables, and evaluation depends only on those (coincidence lemma); the flop counter equals an independent operation count and the CSE-aware counter counts a seen wrapper as 0; the node counter (an exact model of the cached walk: lookup before dispatch, store after the handler) returns exactly the number of distinct subexpressions whenever no two subterms are confusable under the cache key (type, ==), and on every well-formed tree a number between the count of ==-classes and the count of structurally distinct subterms (both bounds witnessed not to be the count in general). Tied to DependencyMapper (plain/cached, composite_leaves), get_num_nodes, FlopCounter, CSEAwareFlopCounter by correspondence AND by regenerated handler tables (T-gen): every map_* of DependencyMapper / CSECachingMapperMixin / Collector / FlopCounterBase / CSEAwareFlopCounter, combine, DependencyMapper.__init__, the NodeCountMapper hooks, get_num_nodes and the memo protocol of CachedMapper.__call__ are re-read from the source on every run (layers over the C04 combine / walk tables), and deps, flopsG, c09CountWalk are proved to be the unique solutions of the regenerated one-step equations for all expressions, flag settings, seen-sets and caches.',
     level_note='Trusted: Lean kernel; harness; Python sets modelled as duplicate-free lists under == with left-biased union. Completeness needs well-formed trees (no nan constants, duplicate-free keyword names). Node counting: the theorem needs no nan constants; on ==-confusable trees (1 / 1.0 / True below equal parents) the sentence of the property is ambiguous and the oracle accepts any count between the coarsest and the finest reading, while the correspondence (count and counted nodes in post_visit order) stays exact.',
     technique='Lean 4 proofs about the traversal model (Occurs relation, coincidence lemma) + differential correspondence + independent dataclass-field scan',
     design_ref="DESIGN.md §4 C09",
